@@ -258,6 +258,41 @@ def c07(run: Run):
             run.add("rawlzma2 ops=d:%s;r;d:%s" % (h, h),
                     oracle=lambda res, meta, peak: "panic/hang in raw decoder: " + res[:80] if ("panic" in res or v(res) in ("hang", "abort", "missing")) else None,
                     tag="c07:rawlzma2", release=True)
+    # a raw decoder object used again after FAILED decodes without reset, with the state hand-over (`fsdump=1`,
+    # two-stage): after each failure the harness dumps the object the call left behind, the model reads it back,
+    # evaluates the invariant of the `C07Any` theorems on it (`checkInv`, sound by `C07State.checkInv_sound`) and
+    # continues from it — so the following decodes and state digests are compared exactly instead of `unspec`
+    def handover_oracle(res, meta, peak):
+        if "panic" in res or v(res) in ("hang", "abort", "missing"):
+            return "panic/hang in a raw decoder used after a failed decode: " + res[:80]
+        return None
+    def spoil(data):
+        k = rng.below(5)
+        if k == 0 and len(data) > 6:
+            return data[:5 + rng.below(len(data) - 5)]                      # input ends inside a symbol
+        if k == 1 and len(data) > 6:
+            p = 5 + rng.below(len(data) - 5)
+            return data[:p] + bytes([data[p] ^ (1 << rng.below(8))]) + data[p + 1:]
+        if k == 2:
+            return data[:5 + rng.below(3)] if len(data) > 8 else data[:3]   # range-coder initialisation / first symbols
+        if k == 3:
+            return data + rng.bytes(rng.below(6) + 1)
+        return rng.bytes(rng.below(40) + 6)
+    lz_small = [x for x in lz if x["lc"] + x["lp"] <= 4] or lz          # a dump is (0x300 << (lc + lp)) * 2 + ~3 KiB bytes
+    for i in range(sizes(run.tier, 60, 600)):
+        m = rng.pick(lz_small) if rng.below(8) else rng.pick(lz)
+        us = "none" if m["eos"] else rng.pick([str(len(m["out"])), str(len(m["out"])), str(len(m["out"]) + 3), "none"])
+        good = m["payload"]
+        ops = []
+        for j in range(rng.below(4) + 2):
+            ops.append("d:" + (spoil(good) if rng.below(3) else good).hex())
+            if rng.below(3) == 0:
+                ops.append("st")
+            if rng.below(6) == 0:
+                ops.append(rng.pick(["r", "rs:none", "rs:%d" % len(m["out"])]))
+        ops += ["d:" + good.hex(), "st"]
+        run.add("rawlzma fsdump=1 lc=%d lp=%d pb=%d dict=%d us=%s ml=none ops=%s" % (m["lc"], m["lp"], m["pb"], m["dict"], us, ";".join(ops)),
+                oracle=handover_oracle, tag="c07:rawlzma:after-failure-handover", twostage=True)
     # targeted error paths (the property's "structured mutations": sizes that fall inside a copy,
     # chunk sizes off by a few, stale distances after a dictionary reset, huge announced sizes)
     for m in [x for x in lz if x.get("cum") and len(x["out"]) > 3 and x["dict"] >= 4096][:sizes(run.tier, 25, 200)]:
